@@ -32,26 +32,13 @@ Theorem C02_Pause_getters_spec : forall v, wf v -> bytes_ok (arr v) ->
 Proof. exact Pause_spec. Qed.
 Print Assumptions C02_Pause_getters_spec.
 
-(* ParseHopByHopExtensions against the RFC 8200 4.2 TLV tiling of the options area: equal outside the two
-   recorded classes (type masked with 0x1f; overrunning option accepted), each refuted by witness below *)
-Theorem C02_HBH_getters_spec_partial : forall v, wf v -> bytes_ok (arr v) ->
-  HBH_IsValid v = Ok true -> getters_spec HBH_findings_C02 HBH_getters HBH_specs v.
+(* ParseHopByHopExtensions = the RFC 8200 4.2 tiling of the options area by acceptable options (Pad1, PadN, router
+   alert of length 2, jumbo payload of length 4, unrecognised options only with action bits 00), for every valid
+   header (full since the repairs ddd494c / 3430bd4 of the two classes recorded in round 2) *)
+Theorem C02_HBH_getters_spec : forall v, wf v -> bytes_ok (arr v) ->
+  HBH_IsValid v = Ok true -> getters_spec [] HBH_getters HBH_specs v.
 Proof. exact HBH_spec. Qed.
-Print Assumptions C02_HBH_getters_spec_partial.
-Theorem C02_HBH_parse_masked_refuted :
-  wf w_hbh_mask /\ bytes_ok (arr w_hbh_mask) /\ HBH_IsValid w_hbh_mask = Ok true /\
-  HBH_Parse w_hbh_mask = Ok VE /\ lookup "ParseHopByHopExtensions" HBH_specs <> None /\
-  (forall s, lookup "ParseHopByHopExtensions" HBH_specs = Some (Some s) -> s (view w_hbh_mask) = VU) /\
-  key_of HBH_findings_C02 "ParseHopByHopExtensions" w_hbh_mask = Some "view-hbh-option-type-masked"%string.
-Proof. exact HBH_parse_masked_refuted. Qed.
-Print Assumptions C02_HBH_parse_masked_refuted.
-Theorem C02_HBH_parse_overrun_refuted :
-  wf w_hbh_overrun /\ bytes_ok (arr w_hbh_overrun) /\ HBH_IsValid w_hbh_overrun = Ok true /\
-  HBH_Parse w_hbh_overrun = Ok VU /\
-  (forall s, lookup "ParseHopByHopExtensions" HBH_specs = Some (Some s) -> s (view w_hbh_overrun) = VE) /\
-  key_of HBH_findings_C02 "ParseHopByHopExtensions" w_hbh_overrun = Some "view-hbh-option-overrun-accepted"%string.
-Proof. exact HBH_parse_overrun_refuted. Qed.
-Print Assumptions C02_HBH_parse_overrun_refuted.
+Print Assumptions C02_HBH_getters_spec.
 
 Theorem C02_ICMP_getters_spec : forall v, wf v -> bytes_ok (arr v) ->
   ICMP_IsValid v = Ok true -> getters_spec [] ICMP_getters ICMP_specs v.
